@@ -347,11 +347,15 @@ def enterW (s : St) (farm w a : Nat) (merge : List (Nat × Nat)) (ft : Nat × Na
       let (s4, n) := newF s3 farm mf.1 mf.2 .wlp nw (a + sp)
       pure (addStray s4 stray, { fOut := (n, mf.2), rew := rewOf rew, newW := nw, newF := n })
 
-/-- `exitFarmProxy` of `x` of wrapped farm token `f`; the farm returns `farming` farming tokens. -/
+/-- `exitFarmProxy` of `x` of wrapped farm token `f`; the farm returns `farming` farming tokens.
+    (`farm`, the address the caller names, only matters through the callee: a farm that is not
+    the one the farm token belongs to rejects the call.) -/
 def exitFarm (s : St) (farm f x farming : Nat) (rew : Option LkTok) : Option (St × Out) := do
   req (farming ≤ x)
   let (s1, t) ← takeF s f x (if x = farming then .out else .dissolve true)
-  let s2 : St := if farmIsBase farm then { s1 with burnB := s1.burnB + farming }
+  -- a farm only accepts (and returns the farming token of) its own farm token: the farming
+  -- token that comes back is the one of the farm the redeemed farm token belongs to
+  let s2 : St := if farmIsBase t.r.farm then { s1 with burnB := s1.burnB + farming }
                  else { s1 with lp := s1.lp + farming }
   if x = farming then
     match t.r.kind with
@@ -378,7 +382,7 @@ def exitFarm (s : St) (farm f x farming : Nat) (rew : Option LkTok) : Option (St
 /-- `claimRewardsProxy` of `x` of wrapped farm token `f`; the farm returns the new farm token `ft`. -/
 def claim (s : St) (farm f x : Nat) (ft : Nat × Nat) (rew : Option LkTok) : Option (St × Out) := do
   let (s1, t) ← takeF s f x .keep
-  let (s2, n) := newF (learnOpt s1 rew) farm ft.1 ft.2 t.r.kind t.r.pn t.p
+  let (s2, n) := newF (learnOpt s1 rew) t.r.farm ft.1 ft.2 t.r.kind t.r.pn t.p
   pure (s2, { fOut := (n, ft.2), rew := rewOf rew, newF := n })
 
 /-- `mergeWrappedLpTokens` -/
@@ -398,11 +402,11 @@ def mergeFarm (s : St) (farm : Nat) (l : List (Nat × Nat)) (mf : Nat × Nat) (t
   match r0.kind with
   | .locked =>
       let s2 : St := { learn s1 t with lk := s1.lk.add t.k t.amt }
-      let (s3, n) := newF s2 farm mf.1 mf.2 .locked t.k t.amt
+      let (s3, n) := newF s2 r0.farm mf.1 mf.2 .locked t.k t.amt
       pure (addStray s3 stray, { fOut := (n, mf.2), newF := n })
   | .wlp =>
       let (s2, nw) := newW (learn s1 t) sp t.k t.amt false
-      let (s3, n) := newF s2 farm mf.1 mf.2 .wlp nw sp
+      let (s3, n) := newF s2 r0.farm mf.1 mf.2 .wlp nw sp
       pure (addStray s3 stray, { fOut := (n, mf.2), newW := nw, newF := n })
 
 /-- `increaseProxyPairTokenEnergy`: `t` is the factory's extended locked token -/
